@@ -1,45 +1,78 @@
 /-
-C13 on the regenerated table of constant types (Gen.constTable, from
-operand/zconst.go and operand/const.go): the format verbs and byte sizes the
-source uses are the ones the model's `Const.asm` / `Const.size` stand for.
-Re-checked by the kernel whenever the source changes.
+C13 on the regenerated BEHAVIOURAL table of constant types (Gen.Consts): the
+list of types of package operand that implement `Constant` (go/types), and what
+`Asm()` / `Bytes()` of the compiled package return on boundary values of each.
+The model's `Const.asm` / `Const.size` render every vector identically, and the
+assembler model converts the text of every float vector back to its bit pattern.
+Nothing is compared with source text: rewriting the methods without changing
+what they return changes nothing here.  Re-checked by the kernel whenever the
+regenerated table differs.
 -/
 import AvoVerif.Props.C13
 import AvoVerif.Gen.Consts
 namespace Avo.Data
 open Avo.NumText
 
-def dec (n : Nat) : String := String.ofList (digits 10 n)
+def tyOfName : String → Option IntTy
+  | "I8" => some I8 | "U8" => some U8 | "I16" => some I16 | "U16" => some U16
+  | "I32" => some I32 | "U32" => some U32 | "I64" => some I64 | "U64" => some U64
+  | _ => none
 
-/-- How the source must describe an integer constant type for the model to be
-its model: name, underlying Go type, `Asm()` verb, `Bytes()`.
-Signed: `$%+d` (`intDecPlus`); unsigned: `$%#0Nx` with N = 2·bytes (`hexPad (2·bytes)`). -/
-def IntTy.row (ty : IntTy) : String × String × String × String :=
-  ((if ty.signed then "I" else "U") ++ dec (8 * ty.bytes),
-   (if ty.signed then "int" else "uint") ++ dec (8 * ty.bytes),
-   (if ty.signed then "$%+d" else "$%#0" ++ dec (2 * ty.bytes) ++ "x"),
-   dec ty.bytes)
+/-- The printed form as bytes, for ASCII text (integers, floats); string
+literals are bytes already. -/
+def ValText.ascii : ValText → List Nat
+  | .num cs => 36 :: cs.map Char.toNat
+  | .flt cs => 36 :: 40 :: cs.map Char.toNat ++ [41]
+  | .str lit => 36 :: lit
 
-def expectedConstTable : List (String × String × String × String) :=
-  intTypes.map IntTy.row ++
-  [("F32", "float32", "$(%s)", "4"), ("F64", "float64", "$(%s)", "8"), ("String", "string", "$%+q", "len(s)")]
+/-- The model covers exactly the constant types the package declares. -/
+theorem const_types_agree :
+    Avo.Gen.constTypeNames = ["F32", "F64", "I16", "I32", "I64", "I8", "String", "U16", "U32", "U64", "U8"] := by
+  decide
 
-/-- The source declares exactly the constant types of the model, with the
-verbs and sizes the model assumes. -/
-theorem const_table_agrees :
-    expectedConstTable.all (fun r => Avo.Gen.constTable.contains r) = true ∧
-    Avo.Gen.constTable.length = expectedConstTable.length := by decide
+def intVectorOK (r : String × Int × List Nat × Nat) : Bool :=
+  match tyOfName r.1 with
+  | some ty => decide (ty.InRange r.2.1) && ((Const.int ty r.2.1).asm (fun _ => false)).ascii == r.2.2.1 &&
+      (Const.int ty r.2.1).size == r.2.2.2
+  | none => false
 
-/-- Floats are printed with the shortest decimal that identifies the value in
-its own precision (`FormatFloat(x, 'f', -1, bits)`, `.0` appended to integral
-values): F64 with 64 bits; F32 with 32 bits, falling back to the float64-exact
-decimal when the assembler's conversion (ParseFloat 64, then float32) would not
-give the value back (fix of F11).  Whether the text survives the assembler is
-the measured part of C13. -/
-theorem float_format_agrees :
-    Avo.Gen.floatStringBits =
-      [("F32", ["32", "64"], ["strconv.ParseFloat(s,64);err!=nil||float32(x)!=float32(f)"]),
-       ("F64", ["64"], [])] ∧
-    Avo.Gen.asmfloatFormat = ("'f'", "-1", "bits", "\".0\"") := by decide
+/-- the text between `$(` and `)` -/
+def floatBody (t : List Nat) : Option (List Char) :=
+  match t with
+  | 36 :: 40 :: r =>
+    match r.reverse with
+    | 41 :: b => some (b.reverse.map Char.ofNat)
+    | _ => none
+  | _ => none
+
+def floatVectorOK (r : Nat × Nat × List Nat) : Bool :=
+  match floatBody r.2.2 with
+  | some body => (r.1 == 4 || r.1 == 8) && Avo.Float.asmFloat body r.1 == some r.2.1
+  | none => false
+
+def strVectorOK (r : List Nat × List Nat × Nat) : Bool :=
+  ((Const.str r.1).asm (fun _ => false)).ascii == r.2.1 && (Const.str r.1).size == r.2.2
+
+/-- **Integers**: on every vector (each of the eight types at its boundaries)
+the compiled `Asm()` returns the model's text (`$%+d` / `$%#0Nx`) and `Bytes()`
+the model's size. -/
+theorem int_vectors_agree : Avo.Gen.intVectors.all intVectorOK = true ∧ 100 ≤ Avo.Gen.intVectors.length ∧
+    (["I8", "I16", "I32", "I64", "U8", "U16", "U32", "U64"].all
+      (fun n => Avo.Gen.intVectors.any (fun r => r.1 == n))) = true := by
+  decide +kernel
+
+/-- **Strings**: the compiled `Asm()` is `$` + the model's ASCII-only quoting,
+`Bytes()` the length. -/
+theorem str_vectors_agree : Avo.Gen.strVectors.all strVectorOK = true ∧ 20 ≤ Avo.Gen.strVectors.length := by
+  decide +kernel
+
+/-- **Floats**: `Asm()` is `$(text)`, `Bytes()` is 4 / 8, and the assembler model
+(a literal without a decimal point is an INTEGER for cmd/asm) converts the text
+back to the constant's bit pattern — `ConstOK` holds on every vector, among them
+0, -0, subnormals, the largest finite values, integral values (issue 387) and
+the F11 witnesses. -/
+theorem float_vectors_agree : Avo.Gen.floatVectors.all floatVectorOK = true ∧ 40 ≤ Avo.Gen.floatVectors.length ∧
+    Avo.Gen.floatVectors.any (fun r => r.1 == 4) = true ∧ Avo.Gen.floatVectors.any (fun r => r.1 == 8) = true := by
+  decide +kernel
 
 end Avo.Data
